@@ -166,6 +166,13 @@ func decodeTotalBody(rt *rapid.T, check, schema string, n *serixgen.Node, decode
 					// more allocation, because the work a correct decoder does is bounded by the bytes it can consume
 					// (the slack grows with the input: the two inputs may be rejected at different fields, and what was decoded
 					// before the rejection - e.g. a 64 KiB string of a prefix-capacity test value - is copied legitimately)
+					// a dependence on the length field shows in every repetition; a one-off allocation of the runtime (observed
+					// once: ~10 KiB during one measurement that no replay reproduced) does not: re-measure before judging
+					for rep := 0; rep < 3 && int64(alloc2)-int64(alloc) > allocIndependenceSlack+int64(len(input)); rep++ {
+						alloc = measure(func() { _ = decode(input, validate) })
+						alloc2 = measure(func() { out2 = decode(wide, validate) })
+						stats.NoteAdd(check, "metamorphic_remeasured", 1)
+					}
 					if int64(alloc2)-int64(alloc) > allocIndependenceSlack+int64(len(input)) {
 						ex["input_16x"] = hex.EncodeToString(wide)
 						ex["allocated"] = []uint64{alloc, alloc2}
